@@ -69,8 +69,8 @@ def run(ctx):
         pairs += oracle(ctx, c, io, "impl")
     # long single-instance histories (implementation only; see ipgen.long_history)
     import vlib
-    # (the second history is long enough to push the memo past half a million entries: 32 prefixes per address with no host bits kept)
-    longs = [ipgen.long_history(rng, n, B=B, pfx=pfx) for n, B, pfx in ((16000 if q else 60000, 8, "D"), (48000 if q else 90000, 0, "D"))]
+    # (the second history is long enough to push the memo past a million entries: 32 prefixes per address with no host bits kept)
+    longs = [ipgen.long_history(rng, n, B=B, pfx=pfx) for n, B, pfx in ((16000 if q else 60000, 8, "D"), (70000 if q else 120000, 0, "D"))]
     lo = vlib.run_impl(longs, jobs=2)
     for c, out in zip(longs, lo):
         ops, res = ipgen.ops_of(c), out.split(" ")
